@@ -45,7 +45,30 @@ def check(ctx):
         check_config(ctx, ctx.facts(cfg), "" if cfg == "native" else "@" + cfg)
 
 
+def check_try_from_iter(ctx, F, tag):
+    """SparseVector::try_from_iter sizes its builder with the number of items of the iterator, measured before any item is taken
+    from it (the last one is taken first to learn the universe). A count taken after `next_back()` and corrected by hand is wrong
+    for the empty iterator, whose result must be the empty vector."""
+    b = F.body("sparse_vector::SparseVector::try_from_iter")
+    ms = [(bi, t) for bi, t in b.calls() if callee_name(t) == "sparse_vector::SparseBuilder::multiset"]
+    takes = [bi for bi, t in b.calls() if callee_name(t).split("::")[-1] in ("next_back", "next", "last", "nth", "nth_back")]
+    ok = len(ms) == 1
+    detail = "%d SparseBuilder::multiset calls" % len(ms)
+    if ok:
+        cap = core(b.term_of_operand(ms[0][1]["args"][1]))
+        inner = cap[1] if cap[0] == "field" and cap[2] == "0" else cap
+        inner = core(inner)
+        is_count = inner[0] == "call" and inner[1].split("::")[-1] in ("size_hint", "len") and len(inner[2]) == 1 and core(inner[2][0])[:2] == ("param", 0) and \
+            (cap[0] == "field") == (inner[1].split("::")[-1] == "size_hint")
+        count_blocks = [bi for bi, t in b.calls() if callee_name(t) == inner[1]] if is_count else []
+        before = bool(count_blocks) and all(not any(c in b.reach_from(b.succ(tk)) or c == tk for tk in takes) for c in count_blocks)
+        ok = is_count and before
+        detail = "capacity = %s; it is the iterator's own count: %s; measured before any item is taken: %s" % (tstr(cap)[:70], is_count, before)
+    ctx.ob("C11.R5.iterator-route-capacity", b.name + tag, loc(b.raw["span"]), ok, "term-provenance+must-precede", detail)
+
+
 def check_config(ctx, F, tag):
+    check_try_from_iter(ctx, F, tag)
     # ---------------- R4: From<RawVector> for BitVector counts set bits with a popcount over whole words, so the conversion is
     # canonical (equal to what the bit-at-a-time route builds) only while the bits past `len` in the last word are zero
     import c05
